@@ -169,10 +169,22 @@ def _network(n, n_agents, cfg=None):
     if t == 'agepools':
         # the documented MixingPools set-up: the same age brackets as sources and as destinations
         cut = n.get('cut', 15)
-        names = [n['diseases']] if n.get('diseases') else ([d.get('name', d['type']) for d in (cfg or {}).get('diseases', [])] or ['sir'])
+        names = ([n['diseases']] if isinstance(n['diseases'], str) else [list(n['diseases'])]) if n.get('diseases') else ([d.get('name', d['type']) for d in (cfg or {}).get('diseases', [])] or ['sir'])
         mk = lambda: {'young': ss.AgeGroup(0, cut), 'old': ss.AgeGroup(cut, None)}
         return ss.MixingPools(diseases=names[0], beta=n.get('beta', 0.2), src=mk(), dst=mk(), contacts=n.get('contacts', [[2.4, 0.5], [0.9, 0.2]]))
     raise ValueError(t)
+
+
+def death_table(scale=1.0, years=(1995, 2000, 2005, 2010, 2020), trend=0.9):
+    """ a small mortality table: rates per person-year by year, sex and age-group start """
+    import pandas as pd
+    base = {0: 0.06, 1: 0.01, 15: 0.004, 50: 0.02, 70: 0.08}
+    rows = []
+    for i, y in enumerate(years):
+        for sex, f in (('Male', 1.2), ('Female', 1.0)):
+            for a, m in base.items():
+                rows.append(dict(Time=y, Sex=sex, AgeGrpStart=a, mx=round(m * f * scale * trend ** i, 6)))
+    return pd.DataFrame(rows)
 
 
 def _demog(d):
@@ -181,6 +193,8 @@ def _demog(d):
     if t == 'births':
         return ss.Births(birth_rate=d.get('birth_rate', 20), **_own_time(d))
     if t == 'deaths':
+        if 'death_table' in d:     # an age / sex / year mortality table in the UN layout (Time, Sex, AgeGrpStart, mx), scaled
+            return ss.Deaths(death_rate=death_table(**d['death_table']), **_own_time(d))
         return ss.Deaths(death_rate=d.get('death_rate', 10), **_own_time(d))
     if t == 'pregnancy':
         kw = dict(fertility_rate=d.get('fertility_rate', 50)); kw.update(_own_time(d))
